@@ -3,6 +3,8 @@
 //
 // Decided exhaustively at small precision (all pairs / triples of a declared family of key sets, sparse and dense
 // representations in both directions); the error bound is enumerated over (precision, n) for two fixed key families.
+// The state family merges every pair of operands in every representation state (sparse flushed, sparse with
+// pending un-flushed adds, dense) in both directions at the precisions where pending values exist (>= 7).
 package c35
 
 import (
@@ -43,7 +45,7 @@ func ladderKey(fam, i int) []byte {
 }
 
 type Case struct {
-	Fam string `json:"fam"` // single | pair | triple | ladder
+	Fam string `json:"fam"` // single | pair | triple | ladder | state
 	P   uint8  `json:"p"`
 	A   []int  `json:"a,omitempty"` // indices into the 24-key universe, in insertion order
 	B   []int  `json:"b,omitempty"`
@@ -52,6 +54,27 @@ type Case struct {
 	KeyFam   int  `json:"key_family,omitempty"`
 	N        int  `json:"n,omitempty"`
 	Thorough bool `json:"thorough_checkpoints,omitempty"`
+	// state: two operands, each built by a recipe that leaves it in a chosen representation state
+	X *Operand `json:"x,omitempty"`
+	Y *Operand `json:"y,omitempty"`
+}
+
+// Operand is a sketch recipe of the state family. Kind says how the keys are added:
+//
+//	sparse-flushed     Add K1, Count()                      (Count flushes tmpSet into the sparse list)
+//	sparse-pending     Add K1                               (nothing called after the last Add)
+//	sparse-mixed       Add K1, Count(), Add K2              (flushed sparse list + pending values)
+//	dense-merged       empty.Merge(sketch of K1)            (the result of a Merge is always dense)
+//	dense-merged+adds  empty.Merge(sketch of K1), Add K2    (adds go straight into the registers)
+//	dense-grown        Add Big ladder keys (family 1), Add K1 (dense through Add's own conversion)
+//
+// The state a recipe really reaches depends on the precision (Add flushes tmpSet as soon as it holds more than
+// m/100 values and converts to dense when the sparse list outgrows m bytes); it is observed, not assumed.
+type Operand struct {
+	Kind string `json:"kind"`
+	Big  int    `json:"big,omitempty"`
+	K1   []int  `json:"k1,omitempty"`
+	K2   []int  `json:"k2,omitempty"`
 }
 
 type V struct{ Sig, Msg string }
@@ -304,6 +327,148 @@ func execTriple(cs *Case) (*V, string) {
 	return nil, fmt.Sprintf("triple:p=%d,%s,err%s", p, feat, sigmas(p, n, c))
 }
 
+// ---- state: Merge for every (receiver state) x (argument state), both directions
+
+func mkOperand(p uint8, o *Operand) *hll.Plus {
+	h := newPlus(p)
+	add := func(ks []int) {
+		for _, k := range ks {
+			h.Add(key(k))
+		}
+	}
+	switch o.Kind {
+	case "sparse-flushed":
+		add(o.K1)
+		h.Count()
+	case "sparse-pending":
+		add(o.K1)
+	case "sparse-mixed":
+		add(o.K1)
+		h.Count()
+		add(o.K2)
+	case "dense-merged", "dense-merged+adds":
+		if err := h.Merge(build(p, o.K1, 1)); err != nil {
+			panic(err)
+		}
+		add(o.K2)
+	case "dense-grown":
+		for i := 0; i < o.Big; i++ {
+			h.Add(ladderKey(1, i))
+		}
+		add(o.K1)
+	default:
+		panic("harness: unknown operand kind " + o.Kind)
+	}
+	return h
+}
+
+// stateOf observes the representation without flushing it.
+func stateOf(h *hll.Plus) string {
+	switch {
+	case !hll.VerifC35Sparse(h):
+		return "dense"
+	case hll.VerifC35Pending(h) > 0:
+		return "sparse-pending"
+	}
+	return "sparse-flushed"
+}
+
+// unionSketch is the registers-only sketch built by adding every key of the operands to one fresh sketch.
+func unionSketch(p uint8, ops ...*Operand) (*hll.Plus, error) {
+	h := newPlus(p)
+	big := 0
+	for _, o := range ops {
+		if o.Big > big {
+			big = o.Big
+		}
+	}
+	for i := 0; i < big; i++ {
+		h.Add(ladderKey(1, i))
+	}
+	for _, o := range ops {
+		for _, k := range union(o.K1, o.K2) {
+			h.Add(key(k))
+		}
+	}
+	return dense(p, h)
+}
+
+func addUniverse(h *hll.Plus) {
+	for i := 0; i < universe; i++ {
+		h.Add(key(i))
+	}
+}
+
+func execState(cs *Case) (*V, string) {
+	p := cs.P
+	if cs.X == nil || cs.Y == nil {
+		return &V{"harness/state-case-without-operands", ""}, ""
+	}
+	du, err := unionSketch(p, cs.X, cs.Y)
+	if err != nil {
+		return viol("state/merge-error/union", "merge of the union sketch into an empty sketch: %v", err), ""
+	}
+	want, cwant := marshal(du), du.Count()
+	var feats [2]string
+	for dir, rc := range [2][2]*Operand{{cs.X, cs.Y}, {cs.Y, cs.X}} {
+		ro, ao := rc[0], rc[1]
+		x, y := mkOperand(p, ro), mkOperand(p, ao)
+		feat := "recv=" + stateOf(x) + ",arg=" + stateOf(y)
+		feats[dir] = feat
+		desc := fmt.Sprintf("p=%d receiver %s k1=%v k2=%v big=%d (%s) <- argument %s k1=%v k2=%v big=%d (%s)", p,
+			ro.Kind, ro.K1, ro.K2, ro.Big, stateOf(x), ao.Kind, ao.K1, ao.K2, ao.Big, stateOf(y))
+		yref := mkOperand(p, ao)
+		by0, cy0 := marshal(yref), yref.Count()
+		if err := x.Merge(y); err != nil {
+			return viol("state/merge-error/"+feat, "%s: Merge: %v", desc, err), ""
+		}
+		bxy, cxy := marshal(x), x.Count()
+		if !bytes.Equal(bxy, want) {
+			return viol("state/merged-is-not-sketch-of-union/"+feat, "%s: merged sketch differs from the sketch built from the union of the keys (Count %d vs %d; %s)", desc, cxy, cwant, firstDiff(bxy, want)), ""
+		}
+		if cxy != cwant {
+			return viol("state/merged-count-differs-from-union/"+feat, "%s: merged Count()=%d, sketch of the union %d", desc, cxy, cwant), ""
+		}
+		if by, cy := marshal(y), y.Count(); !bytes.Equal(by, by0) || cy != cy0 {
+			return viol("state/merge-modifies-operand/"+feat, "%s: the argument changed (Count %d -> %d; %s)", desc, cy0, cy, firstDiff(by, by0)), ""
+		}
+		// the merged sketch and its argument share no storage: adds to one do not show in the other
+		addUniverse(x)
+		if by := marshal(y); !bytes.Equal(by, by0) {
+			return viol("state/result-aliases-operand/"+feat, "%s: adding keys to the merged sketch changed the argument (%s)", desc, firstDiff(by, by0)), ""
+		}
+		bx := marshal(x)
+		addUniverse(y)
+		if bx2 := marshal(x); !bytes.Equal(bx2, bx) {
+			return viol("state/operand-aliases-result/"+feat, "%s: adding keys to the argument after the merge changed the merged sketch (%s)", desc, firstDiff(bx2, bx)), ""
+		}
+	}
+	if feats[1] < feats[0] {
+		feats[0], feats[1] = feats[1], feats[0]
+	}
+	return nil, fmt.Sprintf("state:p=%d,%s|%s", p, feats[0], feats[1])
+}
+
+// stateOperands: every recipe over the key-set family sets (mixed recipes split a set in two halves).
+func stateOperands(p uint8, sets [][]int) []*Operand {
+	var out []*Operand
+	for _, s := range sets {
+		for _, k := range []string{"sparse-flushed", "sparse-pending", "dense-merged"} {
+			out = append(out, &Operand{Kind: k, K1: s})
+		}
+		if len(s) >= 2 {
+			h := (len(s) + 1) / 2
+			for _, k := range []string{"sparse-mixed", "dense-merged+adds"} {
+				out = append(out, &Operand{Kind: k, K1: s[:h], K2: s[h:]})
+			}
+		}
+	}
+	for _, s := range [][]int{{}, {0}, rng(20, 24)} {
+		out = append(out, &Operand{Kind: "dense-grown", Big: 2 << p, K1: s})
+	}
+	return out
+}
+
 // ---- ladder: (precision, n) enumeration of the error bound, round trip and split-merge at checkpoints
 
 // checkpoints returns the ascending n values at which a ladder is observed.
@@ -466,6 +631,8 @@ func exec(cs *Case) (v *V, outcome string) {
 			v, outcome = execTriple(cs)
 		case "ladder":
 			v, outcome = execLadder(cs)
+		case "state":
+			v, outcome = execState(cs)
 		default:
 			v = &V{"harness/unknown-family", cs.Fam}
 		}
@@ -631,6 +798,28 @@ func run(c *vlib.Ctx) {
 		}
 	}
 	lap("triples")
+	// state: every unordered pair of operand recipes, merged in both directions. Precision 4 (5, 6) cannot hold a
+	// pending value (m/100 < 1: every Add flushes); 7, 8, 9 hold at most 1, 2, 5.
+	sps := []uint8{4, 7, 8, 9}
+	ssets := subsets(8, 2)
+	if c.Thorough() {
+		sps = []uint8{4, 5, 6, 7, 8, 9, 10, 11, 12}
+		ssets = subsets(8, 3)
+	}
+	ssets = append(ssets, rng(0, 3), rng(0, 4), rng(4, 9), rng(9, 16), rng(0, 12), rng(0, 24))
+	nkeys := func(o *Operand) int { return o.Big + len(o.K1) + len(o.K2) }
+	for _, p := range sps {
+		ops := stateOperands(p, ssets)
+		for i, x := range ops {
+			if expired("state") {
+				return
+			}
+			for _, y := range ops[i:] {
+				one(Case{Fam: "state", P: p, X: x, Y: y}, nkeys(x) > 0 && nkeys(y) > 0)
+			}
+		}
+	}
+	lap("state")
 	defer lap("ladders")
 	// ladders: one unit of work per (p, key family)
 	for p := uint8(4); p <= 18; p++ {
@@ -679,6 +868,7 @@ func TestCheck(t *testing.T) {
 			"single: every key subset of size<=4 and every contiguous run of >=4 keys (runs reach the dense representation): marshal->unmarshal keeps Count (two generations), adding every key twice keeps Count, s.Merge(equal sketch) and s.Merge(s) equal s merged into an empty sketch, the unmarshalled copy merges to the same bytes. " +
 			"pair: every unordered pair over {subsets of size<=2} u {runs} (thorough: {size<=3} u {runs}, plus every size-4 subset x the quick family): A.Merge(B) and B.Merge(A) marshal to the same bytes and Count, merging A or B again changes nothing, the result equals the sketch built by adding the union's keys (merged into an empty sketch), B unchanged, round trip of the merged sketch keeps Count. " +
 			"triple: every ordered triple over {subsets of size<=1} u {runs starting at a multiple of 8 with length 4,8,16,24} (thorough: runs starting at a multiple of 4 with length 4,6,8,12,16,24, plus all 2-subsets of the first 10 keys): all 6 merge orders, left and right association, give the bytes of the union's sketch. " +
+			"state: for precision 4, 7, 8, 9 (thorough: every precision 4..12) every unordered pair of operand recipes {sparse-flushed (Add, Count), sparse-pending (Add only: values still buffered in tmpSet), sparse-mixed (Add, Count, Add), dense-merged (result of a Merge), dense-merged+adds, dense-grown (2m ladder keys, converted by Add)} over the key sets {subsets of size<=2 (thorough <=3) of the first 8 keys} u {runs [0,3) [0,4) [4,9) [9,16) [0,12) [0,24)} (mixed recipes split a set in halves; dense-grown with 0, 1, 4 extra keys), merged in BOTH directions: the receiver's bytes and Count equal the sketch built from the union of the keys (hence both directions agree), the argument is unchanged, and adding all 24 keys to the merged sketch / to the argument afterwards does not show in the other. The representation state really reached (sparse with/without pending values, dense) is observed through read-only accessors before the merge and is the outcome class / signature feature: precision 4..6 cannot hold pending values (Add flushes when tmpSet exceeds m/100), 7, 8, 9 hold up to 1, 2, 5. " +
 			"ladder: for every precision 4..18 and two deterministic key families, keys are added one at a time up to 3m and at every n<=64 and every multiple of m/16 (thorough: every n<=4096 and every multiple of m/64): |Count-n| <= 3*1.04/sqrt(m)*n+0.5 for the sketch and for the sketch merged into an empty sketch (always dense), round trip keeps Count, and at split points sketch(first half).Merge(sketch(second half)) equals the sketch of all n keys. " +
 			"non-trivial = all operand key sets non-empty / n>0 (distinct by construction)",
 		Assumptions: []string{
@@ -687,6 +877,7 @@ func TestCheck(t *testing.T) {
 			"bound used: 3 standard errors (3*1.04/sqrt(m)*n) plus 0.5 because Count() is an integer",
 			"sketches are compared through MarshalBinary bytes; after Merge the receiver is always in the dense representation, so equal registers give equal bytes",
 			"operand sketches are rebuilt from their keys for every merge instead of being cloned",
+			"state family: the oracle sketch (all keys added to one fresh sketch, merged into an empty sketch) is built with the code under test (Add, Merge into an empty receiver); the check is metamorphic, like the pair family",
 		},
 		QuickBudgetS: 70, ThoroughBudgetS: 800,
 		Run:    run,
